@@ -72,13 +72,15 @@ class RecodeWorld(World):
         return Tok("function", __code__=code, __globals__=glb, __name__=name, __defaults__=defaults, __closure__=closure, __kwdefaults__=None, __annotations__=None)
 
     def search_names(self, I, co, values, glb, closure=None):
+        if not isinstance(values, (list, tuple)):
+            raise OutOfSubset("_search_names called with something other than the list of values to look for")
         key = tuple(id(v) for v in values)
         return list(self.search_result.get(len(values), []))
 
 
 def mk_fn(glb, closure=False, lineno=10):
     code = Tok("code", co_firstlineno=lineno, co_filename="file.py", co_freevars=("v",) if closure else ())
-    return Tok("function", __code__=code, __globals__=glb, __defaults__=("d",), __kwdefaults__={"k": 1}, __annotations__={"x": int}, __closure__=("cell",) if closure else None)
+    return Tok("function", __name__="method", __qualname__="make.<locals>.method", __module__="m", __code__=code, __globals__=glb, __defaults__=("d",), __kwdefaults__={"k": 1}, __annotations__={"x": int}, __closure__=("cell",) if closure else None)
 
 
 def mk_ovld(i):
@@ -94,7 +96,8 @@ def t_recode_tail():
         G = {}
         ov1, ov2 = mk_ovld(1), mk_ovld(2)
         results = []
-        for ov, fn in ((ov1, mk_fn(G)), (ov1, mk_fn(G)), (ov2, mk_fn(G))):  # two methods of one function (same line: a factory), one of another
+        shared = mk_fn(G)  # one method rewritten for two functions (inherited by a copy / an extend_super subclass)
+        for ov, fn in ((ov1, shared), (ov1, mk_fn(G)), (ov2, mk_fn(G)), (ov2, shared)):  # two methods of one function (same line: a factory), one of another
             results.append((ov, I.call_repo("recode:recode", [fn, ov, "recurse", "call_next", "newname"], {})))
         names = []
         for (ov, new_fn), kw in zip(results, w.converters):
@@ -113,7 +116,7 @@ def t_recode_tail():
             I.require(G.get(om) is ov.attrs["dispatch"] and G.get(mm) is ov.attrs["map"], "mangled_names_are_bound_to_the_entry_point_and_table_of_that_function")  # C08
         I.require(len({om for _, om, _, _, _ in names}) == 2 and len({mm for _, _, mm, _, _ in names}) == 2, "entry_point_and_table_names_are_injective_in_the_function_id")
         I.require(names[0][1] == names[1][1] and names[0][2] == names[1][2], "entry_point_and_table_names_depend_only_on_the_function_id")
-        I.require(len({cm for _, _, _, cm, _ in names}) == 3, "every_rewritten_method_gets_its_own_code_name")  # C07: also for methods made by one factory def
+        I.require(len({cm for _, _, _, cm, _ in names}) == 4, "every_rewritten_method_gets_its_own_code_name")  # C07: also for methods made by one factory def
         I.require(G.get("__SUBTLER_TYPE") == "SUBTLER_TYPE", "subtler_type_bound")
         for (ov, new_fn) in results:
             I.require(new_fn.attrs.get("__kwdefaults__") == {"k": 1} and new_fn.attrs.get("__annotations__") == {"x": int} and new_fn.attrs.get("__defaults__") == ("d",), "defaults_kwdefaults_annotations_carried_over")  # C09 / C03
@@ -146,6 +149,8 @@ def t_adapt_function():
         orig = w.search_names
 
         def spy(I2, co, values, glb, closure=None):
+            if not isinstance(values, (list, tuple)):
+                raise OutOfSubset("_search_names called with something other than the list of values to look for")
             seen.append(list(values))
             return []
 
